@@ -154,8 +154,14 @@ def scan_loop_ordinal():
 ROWS_TEXT = "ABCDEFGHIJKLMNOPQRSTUVWXYZ0123456789ABCD"      # 40 characters
 
 
-def row_words(text):
-    """code words of a row; '~' stands for a mid-row italics code (it occupies one cell)"""
+def row_words(text, row=15):
+    """code words of a row; '~' stands for a mid-row italics code (it occupies one cell), '^' for the row's own
+    preamble address code sent again in the middle of the row (the cursor is already there: nothing moves)"""
+    if "^" in text:
+        out = []
+        for k, piece in enumerate(text.split("^")):
+            out += ([C.pac(row)] if k else []) + row_words(piece, row)
+        return out
     parts = text.split("~")
     ws = list(C.text_words(parts[0]))
     for part in parts[1:]:
@@ -170,32 +176,36 @@ def row_words(text):
 def cells(t):
     """columns a row occupies.  A mid-row code is one cell; where it is followed by a padding word ('~_') the count is
     exact, otherwise such rows are chosen well above / below 32 and the cell is not counted"""
+    t = t.replace("^", "")
     return len(t.replace("~", "").replace("_", "")) + (t.count("~") if "_" in t else 0)
 
 
-def popon(rows, tc):
+def popon(rows, tc, cr=False):
     """one pop-on caption with the given (row number, text) rows, shown with EOC; one line of SCC"""
     ws = [C.ctrl("ENM"), C.ctrl("RCL")]
     for r, text in rows:
         ws.append(C.pac(r))
-        ws += row_words(text)
+        ws += row_words(text, r)
+        if cr:
+            ws.append(C.ctrl("CR"))
     ws += [C.ctrl("EDM"), C.ctrl("EOC")]
     return tc, ws
 
 
-def stream(mode, rowsets, terminated=True):
+def stream(mode, rowsets, terminated=True, cr=False):
+    """cr: a carriage return (94ad) is sent after every row also in pop-on and paint-on mode (where it moves nothing)"""
     lines = []
     t = 30
     if mode == "pop":
         for rows in rowsets:
-            lines.append(popon(rows, C.timecode(t)))
+            lines.append(popon(rows, C.timecode(t), cr))
             t += 90
         if terminated:
             lines.append((C.timecode(t), [C.ctrl("EDM")]))
     elif mode == "roll":
         for rows in rowsets:
             for r, text in rows:
-                lines.append((C.timecode(t), [C.ctrl("RU2"), C.ctrl("CR"), C.pac(15)] + row_words(text)))
+                lines.append((C.timecode(t), [C.ctrl("RU2"), C.ctrl("CR"), C.pac(15)] + row_words(text, 15)))
                 t += 90
         if terminated:
             lines.append((C.timecode(t), [C.ctrl("CR")]))
@@ -203,11 +213,23 @@ def stream(mode, rowsets, terminated=True):
         for rows in rowsets:
             ws = [C.ctrl("RDC")]
             for r, text in rows:
-                ws += [C.pac(r)] + row_words(text)
+                ws += [C.pac(r)] + row_words(text, r) + ([C.ctrl("CR")] if cr else [])
             lines.append((C.timecode(t), ws))
             t += 90
         if terminated:
             lines.append((C.timecode(t), [C.ctrl("RDC")]))
+    return C.scc_document(lines)
+
+
+def stream_rows_with_cr(mode, texts):
+    """rows sent one per line to the same address, each followed by a carriage return; the mode command is sent once"""
+    mode_word = {"pop": C.ctrl("RCL"), "roll": C.ctrl("RU2"), "paint": C.ctrl("RDC")}[mode]
+    lines, t = [], 30
+    for k, text in enumerate(texts):
+        lines.append((C.timecode(t), ([mode_word] if k == 0 else []) + [C.pac(15)] + row_words(text, 15) + [C.ctrl("CR")]))
+        t += 60
+    if mode == "pop":
+        lines += [(C.timecode(t), [C.ctrl("EOC")]), (C.timecode(t + 60), [C.ctrl("EDM")])]
     return C.scc_document(lines)
 
 
@@ -257,15 +279,41 @@ def bounded(ctx, b):
         cases.append((mode, rng.choice([True, False]), sets))
     # one reader object for all streams (the outcome must depend on the stream only, also after a read that raised)
     shared = SCCReader()
-    for mode, term, sets in cases:
+    for mode in ("pop", "roll", "paint"):
+        # the row's own preamble address code sent again in the middle of the row: still ONE row of 40 / 20 / 33 columns
+        cases.append((mode, True, [[(15, ROWS_TEXT[:20] + "^" + ROWS_TEXT[:20])]]))
+        cases.append((mode, True, [[(15, ROWS_TEXT[:10] + "^" + ROWS_TEXT[:10])]]))
+        cases.append((mode, True, [[(3, "top")], [(15, ROWS_TEXT[:20] + "^" + ROWS_TEXT[:13])]]))
+        cases.append((mode, False, [[(14, ROWS_TEXT[:16] + "^" + ROWS_TEXT[:16])]]))
+        # carriage returns between the rows of a pop-on / paint-on caption do not glue the rows together
+        cases.append((mode, True, [[(1, ROWS_TEXT[:20]), (5, ROWS_TEXT[:20]), (9, ROWS_TEXT[:20])]], True))
+        cases.append((mode, True, [[(15, ROWS_TEXT[:20])], [(15, ROWS_TEXT[:20])], [(15, ROWS_TEXT[:20])]], True))
+        cases.append((mode, True, [[(13, ROWS_TEXT[:30]), (14, ROWS_TEXT[:34]), (15, ROWS_TEXT[:5])]], True))
+    shared_cr = SCCReader()
+    for mode in ("pop", "roll", "paint"):
+        for lens_ in ([20, 20, 20], [12, 12], [32, 1, 32], [20, 33, 5], [16, 17]):
+            texts_ = [ROWS_TEXT[:k] for k in lens_]
+
+            def crs(mode=mode, texts_=texts_):
+                doc = stream_rows_with_cr(mode, texts_)
+                longs_ = [t for t in texts_ if len(t) > 32]
+                try:
+                    cs = shared_cr.read(doc)
+                except CaptionLineLengthError as e:
+                    return bool(longs_) and all(f"{t} - Length {len(t)}" in str(e) for t in longs_), {"raised": str(e)[:300], "row_lengths": [len(t) for t in texts_]}
+                too = [ln for cap in cs.get_captions("en-US") for ln in cap.get_text().split("\n") if len(ln) > 32]
+                return not too and not longs_, {"returned_silently": too or longs_}
+            b.guard(("rows_with_cr", mode, tuple(lens_)), crs, sample={"mode": mode, "row_lengths": lens_, "carriage_return_after_every_row": True})
+    for mode, term, sets, *rest in cases:
+        cr = bool(rest and rest[0])
         texts = [t for rows in sets for _, t in rows if t]
         # (a mid-row code's cell may or may not be reproduced: such rows are chosen well above / below 32 either
         # way, and are not looked up by their exact text in the message)
         longs = [t for t in texts if cells(t) > 32]
-        named_exactly = [t for t in longs if "~" not in t]
+        named_exactly = [t.replace("^", "") for t in longs if "~" not in t]
 
-        def one():
-            doc = stream(mode, sets, term)
+        def one(mode=mode, sets=sets, term=term, cr=cr, texts=texts, longs=longs, named_exactly=named_exactly):
+            doc = stream(mode, sets, term, cr)
             try:
                 cs = shared.read(doc)
             except CaptionLineLengthError as e:
@@ -279,8 +327,8 @@ def bounded(ctx, b):
             lines = [ln for cap in cs.get_captions("en-US") for ln in cap.get_text().split("\n")]
             too = [ln for ln in lines if len(ln) > 32]
             return not too and not longs, {"returned_silently": too or longs}
-        b.guard((mode, term, tuple(tuple(r) for rows in sets for r in rows), len(sets)), one,
-                sample={"mode": mode, "terminated": term, "row_lengths": [[len(t) for _, t in rows] for rows in sets]},
+        b.guard((mode, term, tuple(tuple(r) for rows in sets for r in rows), len(sets), cr), one,
+                sample={"mode": mode, "terminated": term, "carriage_returns": cr, "row_lengths": [[len(t) for _, t in rows] for rows in sets]},
                 nontrivial=bool(texts))
 
 
